@@ -225,7 +225,8 @@ class KeyValuePairNode(ContainerNode):
 
     def edits(self, node: TreeNode) -> Edit:
         if not isinstance(node, KeyValuePairNode):
-            raise RuntimeError("KeyValuePairNode.edits() should only ever be called with another KeyValuePair object!")
+            # e.g., an item of a dict facing a member of a set (a dict and a set are both multisets)
+            return Replace(self, node)
         if self.allow_key_edits or self.key == node.key:
             return KeyValuePairEdit(self, node)
         else:
